@@ -281,10 +281,10 @@ func (db *TempPool) OperationHashes(
 
 	ops := make([][2]util.Hash, limit)
 	removeordereds := make([][]byte, limit)
-	removeops := make([]util.Hash, limit)
+	var removeops []util.Hash
 
 	var opsindex uint64
-	var removeorderedsindex, removeopsindex uint64
+	var removeorderedsindex uint64
 
 	facts := map[string]uint64{}
 	defer func() {
@@ -307,16 +307,15 @@ func (db *TempPool) OperationHashes(
 			case err != nil:
 				return false, err
 			case !ok:
-				removeops[removeopsindex] = meta.Operation()
-				removeopsindex++
+				removeops = append(removeops, meta.Operation())
 
 				return true, nil
 			}
 
 			// NOTE filter duplicated fact; last one will be selected
 			if prev, found := facts[meta.Fact().String()]; found {
-				removeops[removeopsindex] = meta.Operation()
-				removeopsindex++
+				// NOTE the previous one of same fact is dropped and removed from pool
+				removeops = append(removeops, ops[prev][0])
 
 				nops := make([][2]util.Hash, len(ops))
 				copy(nops, ops[:prev])
@@ -325,6 +324,12 @@ func (db *TempPool) OperationHashes(
 				ops = nops
 
 				opsindex--
+
+				for i := range facts {
+					if facts[i] > prev {
+						facts[i]--
+					}
+				}
 			}
 
 			ops[opsindex] = [2]util.Hash{meta.Operation(), meta.Fact()}
@@ -346,7 +351,7 @@ func (db *TempPool) OperationHashes(
 		return nil, e.Wrap(err)
 	}
 
-	if err := db.setRemoveNewOperations(ctx, height, removeops[:removeopsindex]); err != nil {
+	if err := db.setRemoveNewOperations(ctx, height, removeops); err != nil {
 		return nil, e.Wrap(err)
 	}
 
